@@ -249,8 +249,10 @@ def run_pattern_case(case, header):
     g, grid, d, r, mh, interp, plane = (case[k] for k in ("g", "grid", "d", "r", "mh", "interp", "plane"))
     tl = [float(t) for t in header["grids"][grid][:len(g)]]
     times = np.asarray(tl)
-    st = states_for(g, base_states(tl), plane)
+    st = states_for(g if not case.get("eps") else [(case["eps"] if v == 0 else v) for v in g], base_states(tl), plane)
     hits = detect(times, st, plane, interp, r, d, mh)
+    if case.get("eps"):
+        return obs_bracket(g, d, mh, bracket_codes(hits, tl)), [float(h.time) for h in hits]
     if interp == "linear":
         pos, sflag = exact_positions(hits, tl, st, plane)
         return obs_exact(g, d, mh, pos, sflag), [float(h.time) for h in hits]
@@ -402,6 +404,16 @@ def main(tier=None, replay=None):
                         record(obs_exact(g, d, mh, pos, sflag),
                                {"g": g, "grid": gk, "d": d, "r": rr, "mh": mh, "interp": "linear", "plane": plane})
                         n_runs += 1
+                    if d == 0 and mh == 0 and plane == 0 and 0 in g and len({v > 0 for v in g if v != 0}) == 1:
+                        # one-sided pattern with on-surface samples: realise "on the surface" as a residual BELOW the tolerance with
+                        # the sign of the side (|g| = 5e-13 < tol_on_surface = 1e-12) instead of an exact zero; same requirement
+                        sg = 1.0 if any(v > 0 for v in g) else -1.0
+                        st_eps = states_for([(sg * 5e-13 if v == 0 else v) for v in g], base, plane)
+                        for interp_e, rr_e in (("linear", 0), ("linear", 2), ("cubic", 0)):
+                            hits = detect(times, st_eps, plane, interp_e, rr_e, 0, 0)
+                            record(obs_bracket(g, 0, 0, bracket_codes(hits, tl), ""),
+                                   {"g": g, "grid": gk, "d": 0, "r": rr_e, "mh": 0, "interp": interp_e, "plane": plane, "eps": sg * 5e-13})
+                            n_runs += 1
                     if mh == 0 and (d == 0 or not is_long):
                         # (long patterns: without direction only -- the bracket form of the requirement
                         # enumerates subsets of optional on-surface samples, of which long patterns have many)
@@ -551,6 +563,13 @@ class RealWorkload:
 
     def orbit(self, ti, steps):
         key = (ti, steps)
+        if key not in self._orbits and ti == 2:
+            # a CLOSED trajectory: a corrected planar Lyapunov orbit sampled over exactly one period (last sample = first to 1e-10)
+            orb = self.l1.create_orbit("lyapunov", amplitude_x=4e-3)
+            orb.correct()
+            orb.propagate(steps=steps)
+            tr = orb.trajectory
+            self._orbits[key] = (orb, np.asarray(tr.times, dtype=float), np.asarray(tr.states, dtype=float))
         if key not in self._orbits:
             from hiten.system.orbits import GenericOrbit
             x1 = float(self.l1.position[0])
@@ -719,6 +738,15 @@ def real_trajectory_observations(ck, dirs):
             case = {"real": True, "run": True, "traj": ti, "steps": steps, "which": which}
             out.append((wl.run_obs(case), case))
             n_calls += 1
+        if ti == 0:
+            # the public pipeline on a closed trajectory: sections just above / below the start level, so that one of them is crossed
+            # in the FIRST sample interval and the other in the LAST one
+            _, tcl, scl = wl.orbit(2, steps)
+            for off in (1e-4, -1e-4):
+                for d in dirs:
+                    case = {"real": True, "traj": 2, "steps": steps, "axis": "y", "offset": off, "facade": True, "history": "fresh", "seq": [d], "d": d}
+                    out.append((wl.facade_obs(case)[0], case))
+                    n_calls += 1
         # the engine: serial vs thread-pool path, with duplicate tolerances in a regime where EACH of them matters: sections
         # whose successive crossings are closer in the section plane than in time (min point distance < time tol < min time gap)
         eng_cases = []
